@@ -1952,11 +1952,14 @@ class Interp:
         args = []
         for i, v in enumerate(values):
             ty = fv.locals[i + 1]["ty"]
+            if v[0] == "__coll_vals_nonempty":
+                args.append(("it", "vecvals", ("vec", v[1], 1, v[2])))
+                continue
             if v[0] == "__coll_vals":
                 # an abstract owning iterator: any number of items, each satisfying the element invariant
                 args.append(("it", "vecvals", ("vec", v[1], 0, v[2])))
                 continue
-            if v[0] in ("__coll_iter", "__coll_slice"):
+            if v[0] in ("__coll_iter", "__coll_slice", "__coll_iter_nonempty"):
                 # an abstract collection: elements live in a vector summary in the root frame
                 elem, nhi = v[1], v[2]
                 byref = True
@@ -1966,7 +1969,7 @@ class Interp:
                     args.append(("sl", 0, (1000 + i), (), 0, 0, 0, nhi))
                 else:
                     # iterator yielding references (Borrow<T>) to the elements
-                    args.append(("it", "slice", r, I(0), I(0, nhi), 0))
+                    args.append(("it", "slice", r, I(0), I(1 if v[0] == "__coll_iter_nonempty" else 0, nhi), 0))
                 continue
             if ty.startswith("&") and v[0] not in ("ref", "sl", "cref"):
                 st.frames[0][i] = v
